@@ -152,7 +152,7 @@ def execute(ctx: Ctx, behs: list[dict]) -> list[dict]:
     try:
         ad.setup(base)
         items = [(b, str(base / f"t{i}")) for i, b in enumerate(behs)]
-        traces = parallel_map(_job, items, chunksize=64)
+        traces = [ad.expand(t) for t in parallel_map(_job, items, chunksize=64)]
         left = [x for x in os.listdir(base) if x != "tmp"]
         if left:
             raise RuntimeError(f"sandbox trees not removed: {left[:5]}")
@@ -241,7 +241,7 @@ def run(ctx: Ctx) -> None:
     behs += d2
     n2 = len(d2)
     if thorough:    # random long histories (every non-final call changes the model state)
-        for st in ctx.simulate("MC_FsIsolation", "MC_FsIsolation_sim.cfg", num=2500, depth=8):
+        for st in ctx.simulate("MC_FsIsolation", "MC_FsIsolation_sim.cfg", num=600, depth=8):
             if st.get("hist"):
                 behs.append({"hist": st["hist"]})
     ctx.notes["behaviours_exhaustive_depth1_all_variants"] = n1
